@@ -12,6 +12,8 @@ import (
 	"errors"
 	"flag"
 	"fmt"
+	"io"
+	"os"
 	"path"
 	"sort"
 	"strconv"
@@ -25,6 +27,7 @@ import (
 	"github.com/tikv/pd/server"
 	"github.com/tikv/pd/server/config"
 	"go.etcd.io/etcd/clientv3"
+	"google.golang.org/grpc/metadata"
 
 	"verifharness/internal/gcbootsrv"
 	"verifharness/internal/rng"
@@ -158,6 +161,9 @@ func errOut(err error) string {
 	switch {
 	case strings.Contains(s, "is not leader") || errors.Is(err, server.ErrNotLeader) || strings.Contains(s, "not leader"):
 		return "err-not-leader"
+	case strings.Contains(s, "invalid cluster") && strings.Contains(s, "mismatch cluster id"):
+		// RaftCluster.PutConfig: the cluster id in the BODY of the request
+		return "err-body-cluster-id"
 	case strings.Contains(s, "mismatch cluster id"):
 		return "err-cluster-id"
 	case strings.Contains(s, gcbootsrv.ErrInjectedTxn.Error()):
@@ -186,6 +192,35 @@ func errOut(err error) string {
 	}
 	return "err:" + strings.ReplaceAll(s, " ", "_")
 }
+
+// tsoStream is the server side of one Tso stream fed from a list of requests.
+type tsoStream struct {
+	reqs []*pdpb.TsoRequest
+	next int
+	sent int
+	bad  bool // a response without a timestamp
+}
+
+func (t *tsoStream) Send(r *pdpb.TsoResponse) error {
+	if r.GetTimestamp() == nil {
+		t.bad = true
+	}
+	t.sent++
+	return nil
+}
+func (t *tsoStream) Recv() (*pdpb.TsoRequest, error) {
+	if t.next >= len(t.reqs) {
+		return nil, io.EOF
+	}
+	t.next++
+	return t.reqs[t.next-1], nil
+}
+func (t *tsoStream) SetHeader(metadata.MD) error  { return nil }
+func (t *tsoStream) SendHeader(metadata.MD) error { return nil }
+func (t *tsoStream) SetTrailer(metadata.MD)       {}
+func (t *tsoStream) Context() context.Context     { return context.Background() }
+func (t *tsoStream) SendMsg(m interface{}) error  { return nil }
+func (t *tsoStream) RecvMsg(m interface{}) error  { return nil }
 
 func (w *world) bootstrap(m int, req *pdpb.BootstrapRequest) string {
 	resp, err := w.c.Srvs[m].S.Bootstrap(ctx(), req)
@@ -469,6 +504,80 @@ func (w *world) exec(op string) string {
 			return errOut(err)
 		}
 		return strconv.FormatBool(resp.GetBootstrapped())
+	case len(f) == 4 && f[0] == "putconfig":
+		// putconfig <m> <header id> <body id>: PutClusterConfig with a metapb.Cluster naming a cluster id
+		m, ok1 := member(f[1])
+		hdr, ok2 := w.header(f[2])
+		body, ok3 := w.header(f[3])
+		if !ok1 || !ok2 || !ok3 {
+			return bad
+		}
+		resp, err := w.c.Srvs[m].S.PutClusterConfig(ctx(), &pdpb.PutClusterConfigRequest{Header: hdr,
+			Cluster: &metapb.Cluster{Id: body.GetClusterId(), MaxPeerCount: 3}})
+		if err != nil {
+			return errOut(err)
+		}
+		if resp.GetHeader().GetError() != nil {
+			return "not-bootstrapped"
+		}
+		return "ok"
+	case len(f) == 2 && f[0] == "getconfig":
+		m, ok := member(f[1])
+		if !ok {
+			return bad
+		}
+		hdr, _ := w.header("own")
+		resp, err := w.c.Srvs[m].S.GetClusterConfig(ctx(), &pdpb.GetClusterConfigRequest{Header: hdr})
+		if err != nil {
+			return errOut(err)
+		}
+		if resp.GetHeader().GetError() != nil {
+			return "not-bootstrapped"
+		}
+		switch id := resp.GetCluster().GetId(); {
+		case id == w.cid:
+			return "cluster=own"
+		case id == 0:
+			return "cluster=zero"
+		}
+		return "cluster=other"
+	case len(f) >= 3 && f[0] == "tso":
+		// tso <m> <header id>...: the requests of ONE Tso stream, in order
+		m, ok := member(f[1])
+		if !ok || len(f) > 18 {
+			return bad
+		}
+		st := &tsoStream{}
+		for _, h := range f[2:] {
+			hdr, ok := w.header(h)
+			if !ok {
+				return bad
+			}
+			st.reqs = append(st.reqs, &pdpb.TsoRequest{Header: hdr, Count: 1, DcLocation: "global"})
+		}
+		done := make(chan error, 1)
+		go func() { done <- w.c.Srvs[m].S.Tso(st) }()
+		var err error
+		select {
+		case err = <-done:
+		case <-time.After(20 * time.Second):
+			return "stuck"
+		}
+		outs := make([]string, len(st.reqs))
+		for i := range outs {
+			switch {
+			case i < st.sent:
+				outs[i] = "ts"
+			case i == st.sent && err != nil:
+				outs[i] = errOut(err)
+				if outs[i] != "err-cluster-id" {
+					outs[i] = "err-tso"
+				}
+			default:
+				outs[i] = "closed"
+			}
+		}
+		return "tso " + strings.Join(outs, " ")
 	case len(f) == 3 && f[0] == "probe":
 		// other handlers with the same header: they must all treat the cluster id alike
 		m, ok1 := member(f[1])
@@ -665,9 +774,14 @@ func (w *world) idClass(res string) string {
 	return fmt.Sprintf("v%d", len(w.idVals)-1)
 }
 
+var traceMu sync.Mutex
+
 func (w *world) run(t *trace.W, op string) string {
 	out := w.exec(op)
-	t.Line(op, out+" | "+w.records())
+	line := out + " | " + w.records()
+	traceMu.Lock()
+	t.Line(op, line)
+	traceMu.Unlock()
 	return out
 }
 
@@ -767,6 +881,13 @@ func genOrders(w *world, t *trace.W, leader int, n int, order []int, f string) {
 	w.run(t, fmt.Sprintf("bootnow %d own %s", leader, goodPayloads[3]))
 	w.run(t, fmt.Sprintf("isboot %d own", leader))
 	w.run(t, fmt.Sprintf("view %d", leader))
+	// identity after bootstrap: the cluster id in header and body of a config update, on one TSO stream,
+	// and what the next leader loads
+	w.run(t, fmt.Sprintf("putconfig %d %s %s", leader, []string{"own", "own", "other"}[n%3], []string{"other", "zero", "own"}[(n+order[0])%3]))
+	w.run(t, fmt.Sprintf("getconfig %d", leader))
+	w.run(t, fmt.Sprintf("tso %d own %s own", leader, []string{"other", "zero"}[order[0]%2]))
+	w.run(t, fmt.Sprintf("lead %d", 1-leader))
+	w.run(t, fmt.Sprintf("getconfig %d", 1-leader))
 }
 
 func genRandom(w *world, t *trace.W, r *rng.R, maxOps int) {
@@ -787,7 +908,21 @@ func genRandom(w *world, t *trace.W, r *rng.R, maxOps int) {
 				idParked = append(idParked, i)
 			}
 		}
-		switch r.Pick(22, 22, 8, 6, 6, 8, 4, 4, 14, 6) {
+		switch r.Pick(22, 22, 8, 6, 6, 8, 4, 4, 14, 6, 6, 4, 5) {
+		case 10:
+			w.run(t, fmt.Sprintf("putconfig %d %s %s", pickMember(r, leader), randHdr(r), randHdr(r)))
+		case 11:
+			w.run(t, fmt.Sprintf("getconfig %d", pickMember(r, leader)))
+		case 12:
+			k := r.Range(1, 6)
+			hs := make([]string, k)
+			for i := range hs {
+				hs[i] = randHdr(r)
+				if i == 0 && r.Bool(2, 3) {
+					hs[i] = "own"
+				}
+			}
+			w.run(t, fmt.Sprintf("tso %d %s", pickMember(r, leader), strings.Join(hs, " ")))
 		case 0:
 			if len(w.reqs) < 8 {
 				w.run(t, fmt.Sprintf("boot %d %d %s %s", len(w.reqs), pickMember(r, leader), randHdr(r), randPayload(r)))
@@ -868,6 +1003,7 @@ func genRandom(w *world, t *trace.W, r *rng.R, maxOps int) {
 	}
 	w.run(t, fmt.Sprintf("isboot %d own", leader))
 	w.run(t, fmt.Sprintf("view %d", leader))
+	w.run(t, fmt.Sprintf("getconfig %d", leader))
 }
 
 func main() {
@@ -877,12 +1013,20 @@ func main() {
 	maxOps := flag.Int("len", 24, "max ops per sequence")
 	stream := flag.Uint64("stream", 0, "PRNG stream")
 	streams := flag.Uint64("streams", 1, "number of streams the enumerated orders are divided among")
+	maxSec := flag.Int("maxsec", 45, "wall-clock budget of the run: the trace written so far is kept")
 	flag.Parse()
 
+	t := trace.Create(*out)
+	// every wait is bounded by this budget: the trace written so far is judged
+	time.AfterFunc(time.Duration(*maxSec)*time.Second, func() {
+		traceMu.Lock()
+		t.Comment("wall-clock budget used up")
+		t.Close()
+		os.Exit(0)
+	})
 	w := newWorld()
 	defer w.c.Stop()
-	t := trace.Create(*out)
-	defer t.Close()
+	defer func() { traceMu.Lock(); t.Close(); traceMu.Unlock() }()
 	if *replay != "" {
 		for _, op := range trace.ReadOps(*replay) {
 			w.run(t, op)
